@@ -10,7 +10,7 @@ FieldAlpha ==
    It("flatten", "word"), It("flatten", "true"), It("bogus", "word")}
 FieldAlphaSmall == {It("flatten", "word"), It("rename", "str"), It("skip", "word"), It("flatten", "true"), It("rename", "word"), It("with", "str"), It("multiple", "str")}
 
-VariantAlpha == {It("rename", "str"), It("rename", "true"), It("skip", "word"), It("word", "word"), It("word", "false"), It("word", "str"), It("bogus", "str")}
+VariantAlpha == {It("rename", "str"), It("rename", "true"), It("skip", "word"), It("skip", "false"), It("word", "word"), It("word", "false"), It("word", "str"), It("bogus", "str")}
 
 ContainerAlpha ==
   {It("default", "word"), It("default", "words"), It("rename_all", "rule"), It("rename_all", "str"), It("map", "str"), It("and_then", "str"),
